@@ -37,7 +37,7 @@ fn byte(seed: u64, i: u64) -> u8 {
     let x = (x * 1103515245 + 12345) & 0x7FFF_FFFF;
     ((x >> 16) & 0xFF) as u8
 }
-fn data(seed: &str, len: &str) -> Vec<u8> {
+pub(crate) fn data(seed: &str, len: &str) -> Vec<u8> {
     let s: u64 = seed.parse().unwrap();
     (0..us(len) as u64).map(|i| byte(s, i)).collect()
 }
@@ -63,22 +63,23 @@ macro_rules! dispatch {
         }
     };
 }
+pub(crate) use dispatch;
 
-fn err_size(e: ImageRawError) -> usize {
+pub(crate) fn err_size(e: ImageRawError) -> usize {
     match e {
         ImageRawError::InvalidDataSize { expected_data_size } => expected_data_size,
     }
 }
 
 // ---------------------------------------------------------------- observation of one draw
-struct Obs {
-    size: Size,
-    bbox: Rectangle,
-    map: BTreeMap<(i32, i32), u32>,
+pub(crate) struct Obs {
+    pub size: Size,
+    pub bbox: Rectangle,
+    pub map: BTreeMap<(i32, i32), u32>,
     /// (area, colours taken = min(stream, w*h)) per fill_contiguous call; None on the draw_iter-only target
-    log: Option<Vec<(Rectangle, usize)>>,
+    pub log: Option<Vec<(Rectangle, usize)>>,
     /// colours pulled per call by the draining target
-    pulled: Option<Vec<usize>>,
+    pub pulled: Option<Vec<usize>>,
 }
 
 /// How the drawable is drawn: through `Image::new(d, o)` / `Image::with_center(d, o)`, or by calling the public
@@ -136,7 +137,7 @@ where
 
 /// args: bpp alt w h len seed mode ox oy tk tx ty tw th nsub [x y w h]*        (mode 0 = Image::new, 1 = Image::with_center)
 ///   or: bpp alt w h len seed 2    0  0  tk tx ty tw th nsub [x y w h]* ax ay aw ah   (mode 2 = draw_sub_image(area) directly)
-fn observe_case<C, O>(a: &[&str]) -> Result<Obs, usize>
+pub(crate) fn observe_case<C, O>(a: &[&str]) -> Result<Obs, usize>
 where
     C: Tag,
     O: DataOrder,
@@ -228,7 +229,7 @@ fn stride(w: u64, bpp: u64) -> u64 {
 /// [y*stride, (y+1)*stride); inside a row sub-byte pixels are packed first-pixel-in-the-most-significant
 /// bits (LittleEndianMsb0) or first-pixel-in-the-least-significant bits (BigEndianLsb0); multi-byte
 /// pixels are little/big endian.
-fn ref_pixel(bpp: u64, alt: bool, bytes: &[u8], w: u64, h: u64, x: i64, y: i64) -> Option<u32> {
+pub(crate) fn ref_pixel(bpp: u64, alt: bool, bytes: &[u8], w: u64, h: u64, x: i64, y: i64) -> Option<u32> {
     if x < 0 || y < 0 || x >= w as i64 || y >= h as i64 {
         return None;
     }
